@@ -77,6 +77,9 @@ def run(out: Outcome, drv):
                 "vectors), random k<=6 vectors of length <=30, masked cells built with masked_all, with flag-valued junk "
                 "under the mask and with a flag as fill_value, every case also permuted / duplicated / regrouped on the real qartod_compare, and run through "
                 "aggregate() and PandasStore.compute_aggregate() as collected results of tests from several packages (qartod, axds, argo, a user module) and streams, input vectors compared byte for byte before / after the call; non-trivial = result has >= 2 distinct flags")
+    # the numpy primitives the translated `qartod_compare` (Model/NpAgg, C04_src_compare) is written in, against the installed numpy
+    from props import np_prims
+    np_prims.run(out, drv, 300 if out.tier == "quick" else 4000)
     cases = []
     # exhaustive columns of height 1..3
     for h in (1, 2, 3):
